@@ -703,3 +703,158 @@ func TestVerifC09(t *testing.T) {
 		hs.Done()
 	}
 }
+
+// ---- one stand-in type standing in for several declared types of the same layout ----
+
+type hidA struct {
+	A int32
+	B bool
+	C string
+}
+type hidB struct {
+	A int32
+	B bool
+	C string
+}
+type hidC struct {
+	A int32
+	B bool
+	C string
+}
+
+//go:noinline
+func retA(x int) hidA { return hidA{A: int32(x)} }
+
+//go:noinline
+func retB(x int) hidB { return hidB{A: int32(x)} }
+
+//go:noinline
+func retC(x int) hidC { return hidC{A: int32(x)} }
+
+//go:noinline
+func retPA(x int) *hidA { return &hidA{A: int32(x)} }
+
+//go:noinline
+func retPB(x int) *hidB { return &hidB{A: int32(x)} }
+
+//go:noinline
+func retPC(x int) *hidC { return &hidC{A: int32(x)} }
+
+//go:noinline
+func argA(v hidA) int { return 1 }
+
+//go:noinline
+func argB(v hidB) int { return 2 }
+
+//go:noinline
+func argPA(v *hidA) int { return 3 }
+
+//go:noinline
+func argPB(v *hidB) int { return 4 }
+
+type reuseCase struct {
+	Steps []int    `json:"steps"` // target per step: 0 retA 1 retB 2 retC 3 retPA 4 retPB 5 retPC 6 argA 7 argB 8 argPA 9 argPB
+	Codes []uint64 `json:"codes"`
+}
+
+func runReuse(ci interface{}, s *vkit.Stats) error {
+	c := ci.(*reuseCase)
+	names := []string{"retA", "retB", "retC", "retPA", "retPB", "retPC", "argA", "argB", "argPA", "argPB"}
+	seenVal, seenPtr := map[int]bool{}, map[int]bool{}
+	for i, tg := range c.Steps {
+		tg %= len(names)
+		code := c.Codes[i%len(c.Codes)]
+		fake := fS2{A: int32(code), B: code%2 == 0, C: fmt.Sprint("s", code)}
+		b := mocker.Create()
+		var err error
+		check := func(got interface{}, a int32, bb bool, cc string) {
+			if err == nil && (a != fake.A || bb != fake.B || cc != fake.C) {
+				err = fmt.Errorf("step %d: %s stubbed with a stand-in %+v delivered %+v", i, names[tg], fake, got)
+			}
+		}
+		pv := guard(func() {
+			switch tg {
+			case 0:
+				b.Func(retA).Return(fake)
+				g := retA(1)
+				check(g, g.A, g.B, g.C)
+			case 1:
+				b.Func(retB).Return(fake)
+				g := retB(1)
+				check(g, g.A, g.B, g.C)
+			case 2:
+				b.Func(retC).Return(fake)
+				g := retC(1)
+				check(g, g.A, g.B, g.C)
+			case 3:
+				b.Func(retPA).Return(&fake)
+				g := retPA(1)
+				check(g, g.A, g.B, g.C)
+			case 4:
+				b.Func(retPB).Return(&fake)
+				g := retPB(1)
+				check(g, g.A, g.B, g.C)
+			case 5:
+				b.Func(retPC).Return(&fake)
+				g := retPC(1)
+				check(g, g.A, g.B, g.C)
+			case 6:
+				b.Func(argA).Return(-1).When(fake).Return(100)
+				if g, m := argA(hidA{fake.A, fake.B, fake.C}), argA(hidA{fake.A + 1, fake.B, fake.C}); g != 100 || m != -1 {
+					err = fmt.Errorf("step %d: argA with a stand-in condition: equal argument -> %d (want 100), different -> %d (want -1)", i, g, m)
+				}
+			case 7:
+				b.Func(argB).Return(-1).When(fake).Return(100)
+				if g, m := argB(hidB{fake.A, fake.B, fake.C}), argB(hidB{fake.A + 1, fake.B, fake.C}); g != 100 || m != -1 {
+					err = fmt.Errorf("step %d: argB with a stand-in condition: equal argument -> %d (want 100), different -> %d (want -1)", i, g, m)
+				}
+			case 8:
+				b.Func(argPA).Return(-1).When(&fake).Return(100)
+				if g, m := argPA(&hidA{fake.A, fake.B, fake.C}), argPA(&hidA{fake.A + 1, fake.B, fake.C}); g != 100 || m != -1 {
+					err = fmt.Errorf("step %d: argPA with a stand-in pointer condition: equal argument -> %d (want 100), different -> %d (want -1)", i, g, m)
+				}
+			case 9:
+				b.Func(argPB).Return(-1).When(&fake).Return(100)
+				if g, m := argPB(&hidB{fake.A, fake.B, fake.C}), argPB(&hidB{fake.A + 1, fake.B, fake.C}); g != 100 || m != -1 {
+					err = fmt.Errorf("step %d: argPB with a stand-in pointer condition: equal argument -> %d (want 100), different -> %d (want -1)", i, g, m)
+				}
+			}
+		})
+		b.Reset()
+		if pv != nil {
+			return fmt.Errorf("step %d: %s with a stand-in of identical layout panicked (the stand-in type had %d earlier uses in this history): %v", i, names[tg], i, pv)
+		}
+		if err != nil {
+			return err
+		}
+		declared := tg % 3
+		if tg >= 6 {
+			declared = (tg - 6) % 2
+		}
+		byPtr := (tg >= 3 && tg <= 5) || tg >= 8
+		m := seenVal
+		if byPtr {
+			m = seenPtr
+		}
+		m[declared] = true
+		if len(m) >= 2 {
+			s.Class("one-stand-in-type-for-several-declared-types")
+		}
+	}
+	s.Class("reuse-histories")
+	s.NonTrivial(fmt.Sprint(c.Steps))
+	return nil
+}
+
+func TestVerifC09Reuse(t *testing.T) {
+	quiet()
+	p := &vkit.Prop{ID: "C09", Unit: "standin-reuse", New: func() interface{} { return &reuseCase{} },
+		Gen: func(rt *rapid.T) interface{} {
+			return &reuseCase{Steps: rapid.SliceOfN(rapid.IntRange(0, 9), 2, 6).Draw(rt, "steps"), Codes: rapid.SliceOfN(rapid.Uint64Range(0, 1000), 1, 3).Draw(rt, "codes")}
+		},
+		Run: runReuse}
+	s := p.Main(t, vkit.Scale(600, 6000))
+	if !vkit.Replaying() {
+		s.Done()
+	}
+}
